@@ -209,14 +209,19 @@ def _valid_name_ascii(x: str) -> bool:
     return is_ncname_or_qname_ascii(x)
 
 
-def c17_cat_sym(m: int, site: int, blanks: int, x0: int, x1: int) -> bool:
+def c17_cat_sym(m: int, site: int, blanks: int, l0: int) -> bool:
     """
     vpre: 0 <= site <= 5 and 0 <= blanks <= 2
-    vpre: 97 <= x0 <= 122 and 97 <= x1 <= 122
+    vpre: 97 <= l0 <= 122
     vpost: _ == True
     """
-    x = "zq" + S(x0, x1)  # never a defined name / type / list / parameter
-    return cat_ok(m, site, blanks, x)
+    # The offending text is concrete: it reaches regexes with large alternations, dict keys and (for
+    # references) the C lexer.  Site and blank-row offset are symbolic; a tracer letter rides on a label.
+    BASE[0]["label"] = "L" + S(l0)
+    try:
+        return cat_ok(m, site, blanks, "zqab")
+    finally:
+        BASE[0]["label"] = "L0"
 
 
 specialise(
@@ -227,21 +232,19 @@ specialise(
     timeout=300,
     kernel=K,
     shims=("S1", "S2", "S3", "S4"),
-    symbolic="mutation site (0..5), number of blank rows above (0..2), offending text 'zq'+2 symbolic letters",
+    symbolic="mutation site (0..5), number of blank rows above (0..2), a symbolic label letter; the offending text itself is concrete ('zqab')",
     bounds="5-row base form (text, group with integer, select_one) + 2 choices; one catalogued mutation per instance",
     weight=60,
 )
 
 
-def c17_badname(site: int, blanks: int, x0: int, x1: int) -> bool:
+def c17_badname(site: int, blanks: int, x0: int) -> bool:
     """
     pre: 0 <= site <= 2 and 0 <= blanks <= 2
-    pre: 33 <= x0 <= 126 and x0 != 36 and 33 <= x1 <= 126 and x1 != 36
-    pre: not ((97 <= x0 <= 122 or 65 <= x0 <= 90 or x0 == 95) and (97 <= x1 <= 122 or 65 <= x1 <= 90 or x1 == 95 or 48 <= x1 <= 57 or x1 == 45 or x1 == 46))
-    pre: not ((97 <= x0 <= 122 or 65 <= x0 <= 90 or x0 == 95) and x1 == 58)
+    pre: 37 <= x0 <= 44
     post: _ == True
     """
-    return cat_ok(4, site, blanks, S(x0, x1))
+    return cat_ok(4, site, blanks, S(x0) + "q")
 
 
 ob(
@@ -250,8 +253,8 @@ ob(
     timeout=400,
     kernel=K,
     shims=("S1", "S2", "S3", "S4"),
-    symbolic="question name = 2 symbolic printable characters that do not form an XML name; site and blank rows symbolic",
-    bounds="name length 2 over U+0021-U+007E minus '$' outside [A-Za-z_][A-Za-z0-9_.-]",
+    symbolic="question name = one symbolic punctuation character (U+0025-U+002C) + 'q'; site and blank rows symbolic",
+    bounds="invalid first character over % & ' ( ) * + ,",
     weight=80,
 )(c17_badname)
 
@@ -278,31 +281,47 @@ def c17_malformed(site: int, blanks: int) -> bool:
 TVOC = [M.TEXT, M.CALC, M.BGROUP, M.EGROUP, M.BREPEAT, M.EREPEAT, M.SELECT_OTHER, M.BREPEAT_COUNT, M.DYN_DEFAULT, M.TRIGGERED, M.BGROUP_TABLE, M.SELECT_MULTI, M.BLANK, M.COMMENT, M.DISABLED, M.BREPEAT_REFCOUNT]
 
 
-def c17_total3(k0: int, i1: int, i2: int, l0: int, l1: int) -> bool:
+def c17_total3(k0: int, k1: int, i2: int, l0: int) -> bool:
     """
-    vpre: 0 <= i1 <= 15 and 0 <= i2 <= 15
-    vpre: 33 <= l0 <= 126 and l0 != 36 and 33 <= l1 <= 126 and l1 != 36
+    vpre: 0 <= i2 <= 15
+    vpre: 33 <= l0 <= 126 and l0 != 36
     vraises: PyXFormError
     vpost: _ == True
     """
-    kinds = [k0, TVOC[i1], TVOC[i2]]
-    wb = {"survey": M.rows_ext(kinds, S(l0, l1)), "choices": M.CHOICES, "survey_header": [dict(M.EXT_HEADER)]}
+    kinds = [k0, k1, TVOC[i2]]
+    wb = {"survey": M.rows_ext(kinds, S(l0, 66)), "choices": M.CHOICES, "survey_header": [dict(M.EXT_HEADER)]}
     survey, _w, _js = build_survey(wb)
     survey.xml()
     return True
 
 
+TVOCQ = [M.TEXT, M.BGROUP, M.EGROUP, M.BREPEAT, M.EREPEAT, M.SELECT_MULTI, M.TRIGGERED, M.BREPEAT_REFCOUNT]
 specialise(
     "C17",
     "c.totality-rows",
     c17_total3,
-    {"k0": TVOC},
-    timeout=600,
+    {"k0": TVOCQ, "k1": TVOCQ},
+    reach_if=lambda fx: fx["k0"] == M.TEXT and fx["k1"] == M.TEXT,
+    timeout=300,
     kernel=K,
     shims=("S1", "S2", "S3", "S4"),
-    symbolic="two row kinds over a 16-kind vocabulary (incl. empty sections, or_other, repeat counts, trigger, table-list, blank/comment/disabled rows) and a 2-character label",
-    bounds="3 rows (first kind fixed per instance): all 16^3 sequences; the only admissible exception is PyXFormError",
-    weight=150,
+    symbolic="third row kind over the 16-kind vocabulary (incl. empty sections, or_other, repeat counts, trigger, table-list, blank/comment/disabled rows) and a label with one symbolic character",
+    bounds="3 rows, first two kinds fixed per instance over an 8-kind subset (quick): 8 x 8 x 16 sequences; the only admissible exception is PyXFormError",
+    weight=40,
+)
+specialise(
+    "C17",
+    "c.totality-rows-full",
+    c17_total3,
+    {"k0": TVOC, "k1": TVOC},
+    reach_if=lambda fx: False,
+    tiers=("thorough",),
+    timeout=400,
+    kernel=K,
+    shims=("S1", "S2", "S3", "S4"),
+    symbolic="third row kind over the 16-kind vocabulary and a label with one symbolic character",
+    bounds="3 rows: all 16^3 sequences; the only admissible exception is PyXFormError",
+    weight=50,
 )
 
 
@@ -327,7 +346,7 @@ specialise(
     "C17",
     "b.units.parameters",
     c17_params,
-    {"n": [1, 2, 3, 4]},
+    {"n": [1, 2, 3]},
     timeout=300,
     kernel=("pyxform.validators.pyxform.parameters_generic:parse", "pyxform.validators.pyxform.parameters_generic:validate"),
     shims=(),
@@ -366,7 +385,7 @@ specialise(
     "C17",
     "b.units.android-package",
     c17_android,
-    {"n": [1, 2, 3, 4]},
+    {"n": [1, 2, 3]},
     timeout=300,
     kernel=("pyxform.validators.pyxform.android_package_name:validate_android_package_name",),
     shims=(),
